@@ -287,6 +287,7 @@ func (r *Runner) setVarWithIndex(prev expand.Variable, name string, index syntax
 			prev.Map = make(map[string]string)
 		}
 		prev.Map[k] = valStr
+		prev.Set = true
 		r.setVar(name, prev)
 		return
 	}
@@ -303,6 +304,7 @@ func (r *Runner) setVarWithIndex(prev expand.Variable, name string, index syntax
 	prev.Kind = expand.Indexed
 	prev.List = list
 	prev.Indexes = indexes
+	prev.Set = true
 	r.setVar(name, prev)
 }
 
